@@ -46,6 +46,12 @@ Theorem c02_durable_bound :
 Proof. exact c02_durable_bound_l. Qed.
 Print Assumptions c02_durable_bound.
 
+(* the diagnosis printed in replays ([1;i;b;n;conc] / [2;i;b;b']) is the monitor's verdict *)
+Theorem c02_diag_is_monitor :
+  forall c : case, mon_conc c = true <-> mon_conc_diag c = [0].
+Proof. exact mon_conc_diag_agrees. Qed.
+Print Assumptions c02_diag_is_monitor.
+
 (* ---- the tie to the mechanism (coq/limiter: limiter channel + Limited pool + WaitGroup) ---- *)
 
 (* the automaton's launch guard is the guard of Limiter.v, over the same observables I and f *)
